@@ -20,7 +20,9 @@ CONSTANTS Inputs,     \* set of [wire, tail] records offered as bodies; tail as 
           HasEnc,     \* TRUE iff a grpc-encoding was negotiated
           MaxChunk,   \* largest DATA frame the transport delivers
           MaxPolls,   \* bound on the length of the result history
-          Latch       \* TRUE = repaired decoder
+          Latch,      \* TRUE = repaired decoder
+          MaxEmpty,   \* how many empty DATA frames the transport may deliver
+          EmptyIsData \* TRUE = an empty DATA frame is just (no) data, as in the code; FALSE = deviation: it is taken for the end of the body
 
 VARIABLES input,  \* the chosen [wire, tail]
           wire,   \* bytes not yet delivered by the body
@@ -30,9 +32,10 @@ VARIABLES input,  \* the chosen [wire, tail]
           st,     \* [k |-> "hdr"] | [k |-> "body", len, comp] | [k |-> "errSome", code] | [k |-> "errNone"]
           trailers, \* "none" | "ok" | "err"   (cached trailers)
           res,    \* history of poll_next results
-          bodyPollsAfterEnd
+          bodyPollsAfterEnd,
+          empties  \* empty DATA frames delivered so far
 
-vars == <<input, wire, dl, tailDone, buf, st, trailers, res, bodyPollsAfterEnd>>
+vars == <<input, wire, dl, tailDone, buf, st, trailers, res, bodyPollsAfterEnd, empties>>
 
 Hdr == [k |-> "hdr", len |-> 0, comp |-> 0, code |-> 0]
 ErrNone == [k |-> "errNone", len |-> 0, comp |-> 0, code |-> 0]
@@ -42,7 +45,7 @@ ErrSome(c) == [k |-> "errSome", len |-> 0, comp |-> 0, code |-> c]
 Decomp(p) == IF p # <<>> /\ p[1] = 9 THEN [ok |-> TRUE, v |-> Tail(p)] ELSE [ok |-> FALSE, v |-> <<>>]
 
 Init == /\ input \in Inputs /\ wire = input.wire /\ dl = 0 /\ tailDone = FALSE /\ buf = <<>> /\ st = Hdr
-        /\ trailers = "none" /\ res = <<>> /\ bodyPollsAfterEnd = 0
+        /\ trailers = "none" /\ res = <<>> /\ bodyPollsAfterEnd = 0 /\ empties = 0
 
 Emit(r) == Len(res) < MaxPolls /\ res' = Append(res, r)
 Quiet == UNCHANGED res
@@ -51,9 +54,9 @@ EndNow == Emit([r |-> "end"]) /\ st' = IF Latch THEN ErrNone ELSE st
 
 \* ---- State::Error arm at the top of the loop
 ErrArm == \/ /\ st.k = "errSome" /\ Emit([r |-> "err", code |-> st.code]) /\ st' = ErrNone
-             /\ UNCHANGED <<input, wire, dl, tailDone, buf, trailers, bodyPollsAfterEnd>>
+             /\ UNCHANGED <<input, wire, dl, tailDone, buf, trailers, bodyPollsAfterEnd, empties>>
           \/ /\ st.k = "errNone" /\ Emit([r |-> "end"])
-             /\ UNCHANGED <<input, wire, dl, tailDone, buf, st, trailers, bodyPollsAfterEnd>>
+             /\ UNCHANGED <<input, wire, dl, tailDone, buf, st, trailers, bodyPollsAfterEnd, empties>>
 
 \* ---- decode_chunk, ReadHeader with >= 5 bytes buffered
 Header ==
@@ -64,7 +67,7 @@ Header ==
      ELSE IF len > Limit THEN
         /\ buf' = Drop(buf, 5) /\ Fail([r |-> "err", code |-> OUT_OF_RANGE])
      ELSE /\ buf' = Drop(buf, 5) /\ st' = [k |-> "body", len |-> len, comp |-> f, code |-> 0] /\ Quiet
-  /\ UNCHANGED <<input, wire, dl, tailDone, trailers, bodyPollsAfterEnd>>
+  /\ UNCHANGED <<input, wire, dl, tailDone, trailers, bodyPollsAfterEnd, empties>>
 
 \* ---- decode_chunk, ReadBody with the whole payload buffered
 Body ==
@@ -73,7 +76,7 @@ Body ==
      /\ buf' = Drop(buf, st.len)
      /\ IF d.ok THEN Emit([r |-> "msg", ser |-> d.v]) /\ st' = Hdr
         ELSE Fail([r |-> "err", code |-> INTERNAL])     \* decompress error; state stays ReadBody when not latched
-  /\ UNCHANGED <<input, wire, dl, tailDone, trailers, bodyPollsAfterEnd>>
+  /\ UNCHANGED <<input, wire, dl, tailDone, trailers, bodyPollsAfterEnd, empties>>
 
 NeedMore == \/ (st.k = "hdr" /\ Len(buf) < 5) \/ (st.k = "body" /\ Len(buf) < st.len)
 
@@ -81,7 +84,7 @@ NeedMore == \/ (st.k = "hdr" /\ Len(buf) < 5) \/ (st.k = "body" /\ Len(buf) < st
 Deliver(n) ==
   /\ NeedMore /\ wire # <<>> /\ n \in 1..Min2(MaxChunk, Len(wire))
   /\ buf' = buf \o Take(wire, n) /\ wire' = Drop(wire, n) /\ dl' = dl + n
-  /\ UNCHANGED <<input, tailDone, st, trailers, res, bodyPollsAfterEnd>>
+  /\ UNCHANGED <<input, tailDone, st, trailers, res, bodyPollsAfterEnd, empties>>
 
 \* ---- poll_frame: the body fails (placed anywhere: the remaining bytes are simply never delivered)
 BodyErr ==
@@ -89,7 +92,7 @@ BodyErr ==
   /\ tailDone' = TRUE /\ wire' = <<>>
   /\ IF Latch THEN Emit([r |-> "err", code |-> 14]) /\ st' = ErrNone
      ELSE Emit([r |-> "err", code |-> 14]) /\ st' = ErrSome(14)      \* returned *and* stashed
-  /\ UNCHANGED <<input, dl, buf, trailers, bodyPollsAfterEnd>>
+  /\ UNCHANGED <<input, dl, buf, trailers, bodyPollsAfterEnd, empties>>
 
 \* ---- poll_frame: trailers frame, then response()
 Trailers ==
@@ -98,7 +101,7 @@ Trailers ==
   /\ IF input.tail = "trailers_err"
      THEN trailers' = "none" /\ st' = ErrSome(9) /\ Quiet     \* response(): Err(Some(e)) -> State::Error(Some), trailers taken
      ELSE trailers' = "ok" /\ EndNow
-  /\ UNCHANGED <<input, wire, dl, buf, bodyPollsAfterEnd>>
+  /\ UNCHANGED <<input, wire, dl, buf, bodyPollsAfterEnd, empties>>
 
 \* ---- poll_frame: the body is at its end (None); also every later poll of an ended body
 BodyEnd ==
@@ -107,10 +110,17 @@ BodyEnd ==
   /\ tailDone' = TRUE
   /\ IF buf # <<>> THEN Fail([r |-> "err", code |-> INTERNAL])      \* "Unexpected EOF decoding stream."
      ELSE EndNow                                                    \* response(): 200 without trailers ends cleanly
-  /\ UNCHANGED <<input, wire, dl, buf, trailers>>
+  /\ UNCHANGED <<input, wire, dl, buf, trailers, empties>>
+
+\* ---- poll_frame: the body yields an EMPTY data frame (legal at any point before its end)
+Empty ==
+  /\ NeedMore /\ ~tailDone /\ empties < MaxEmpty /\ empties' = empties + 1
+  /\ IF EmptyIsData THEN UNCHANGED <<st, res>>
+     ELSE IF buf # <<>> THEN Fail([r |-> "err", code |-> INTERNAL]) ELSE EndNow
+  /\ UNCHANGED <<input, wire, dl, tailDone, buf, trailers, bodyPollsAfterEnd>>
 
 DeliverAny == \E n \in 1..MaxChunk : Deliver(n)
-Next == ErrArm \/ Header \/ Body \/ DeliverAny \/ BodyErr \/ Trailers \/ BodyEnd
+Next == ErrArm \/ Header \/ Body \/ DeliverAny \/ Empty \/ BodyErr \/ Trailers \/ BodyEnd
 Spec == Init /\ [][Next]_vars /\ WF_vars(Next)
 
 (* ------------------------------------------------------------------ Contract binding *)
